@@ -565,7 +565,7 @@ impl Monitor for C02 {
         "cwv-direct + cwv-app (delivery pass, every 8th history)"
     }
     fn histories(&self, tier: Tier) -> u64 {
-        tier.pick(400, 48_000)
+        tier.pick(1_600, 48_000)
     }
     fn mandatory(&self) -> Vec<&'static str> {
         vec![
